@@ -491,6 +491,15 @@ class ExprMixin:
         raise Unsupported(f"`in` on {container!r}")
 
     def ev_BinOp(self, e, st):
+        if isinstance(e.op, ast.BitOr):  # type unions in isinstance: str | int | float
+            def u(vals, s):
+                flat = []
+                for v in vals:
+                    flat.extend(v if isinstance(v, tuple) else [v])
+                if all(isinstance(x, (ExtRef, ClassRef)) for x in flat):
+                    return [("val", tuple(flat), s)]
+                raise Unsupported("bitwise or")
+            return self.then(self.ev_seq([e.left, e.right], st), u)
         return self.then(self.ev_seq([e.left, e.right], st), lambda vals, s: [("val", ops.binop(s, e.op, self.unopt(s, vals[0]), self.unopt(s, vals[1])), s)])
 
     def ev_Subscript(self, e, st):
